@@ -355,6 +355,7 @@ func c10Entries() []c10Entry {
 			}
 		}
 		for _, b := range bodies {
+			*returned += int64(len(b)) // parsers may allocate in proportion to what they are given, not to what a length field claims
 			for _, pf := range parseFuncs {
 				if pi := drive.Guard(func() { pf.f(b) }); pi != nil {
 					return fmt.Errorf("PANIC %s: %s", pf.name, pi)
@@ -439,6 +440,11 @@ func (p *c10) Check(sc *runner.Scenario, st *runner.Stats, pin string) *runner.V
 			ceiling = 64<<10 + 2*(64<<10) + 64<<20
 		}
 		bound := ceiling + 4*uint64(int64(len(in))+returned) + 1<<20
+		if strings.HasPrefix(e.name, "parse/") {
+			// record parsers work on a buffer that is already in memory: everything they
+			// allocate (strings, maps, index slices) is bounded by a multiple of its size
+			bound = 1<<20 + 64*uint64(returned)*uint64(len(parseFuncs))
+		}
 		if delta > bound {
 			if v := mk("alloc_over_ceiling@"+e.name, "allocated %d bytes in total; ceiling for this entry %d (+4x the %d bytes present/returned)", delta, ceiling, int64(len(in))+returned); v != nil {
 				return v
